@@ -1173,3 +1173,74 @@ K("zzk-reformat-every-module", _reformat_all,
   note="ast.unparse round trip: all comments, line numbers and wrapping change")
 K("zzk-rename-every-local", _rename_locals_all,
   note="every local variable of every function renamed (tests still pass)")
+
+
+# ===================================================== independently seeded ==
+# Changes written by fresh sub-agents that saw only the property text (kept
+# under /verif/seeded/<id>/ with their demonstration).  Each is replayed here
+# in memory; it must be reported for every property recorded as catching it.
+def _apply_unified_diff(texts, diff_text):
+    import re as _re
+    files = _re.split(r"^diff --git .*$", diff_text, flags=_re.M)[1:]
+    for chunk in files:
+        m = _re.search(r"^\+\+\+ b/(.*)$", chunk, _re.M)
+        if not m:
+            continue
+        path = m.group(1).strip()
+        mod = path.split("/")[-1][:-3]
+        if mod not in texts:
+            raise LookupError(path)
+        src = texts[mod].split("\n")
+        out = []
+        pos = 0
+        for h in _re.finditer(
+                r"^@@ -(\d+)(?:,(\d+))? \+(\d+)(?:,(\d+))? @@.*\n((?:[ +\-\\].*\n?)*)",
+                chunk, _re.M):
+            start = int(h.group(1)) - 1
+            body = h.group(5).split("\n")
+            if body and body[-1] == "":
+                body.pop()
+            old = [l[1:] for l in body if l[:1] in (" ", "-")]
+            new = [l[1:] for l in body if l[:1] in (" ", "+")]
+            # locate the old block (exact position first, then search)
+            idx = None
+            if src[start:start + len(old)] == old:
+                idx = start
+            else:
+                for k in range(len(src) - len(old) + 1):
+                    if src[k:k + len(old)] == old:
+                        idx = k
+                        break
+            if idx is None or idx < pos:
+                raise LookupError("hunk of %s does not apply" % path)
+            out.extend(src[pos:idx])
+            out.extend(new)
+            pos = idx + len(old)
+        out.extend(src[pos:])
+        texts[mod] = "\n".join(out)
+    return texts
+
+
+def _load_seeded():
+    import json as _json
+    import os as _os
+    root = _os.path.join(_os.path.dirname(_os.path.dirname(_os.path.dirname(
+        _os.path.abspath(__file__)))), "seeded")
+    if not _os.path.isdir(root):
+        return
+    for sid in sorted(_os.listdir(root)):
+        d = _os.path.join(root, sid)
+        try:
+            meta = _json.load(open(_os.path.join(d, "meta.json")))
+            diff = open(_os.path.join(d, "patch.diff")).read()
+        except OSError:
+            continue
+        props = sorted(meta.get("flagged_by_checks", {}))
+        if not props:
+            continue
+        B("seeded-" + sid, props, [],
+          (lambda texts, _d=diff: _apply_unified_diff(texts, _d)),
+          note=meta.get("summary", ""))
+
+
+_load_seeded()
